@@ -759,6 +759,32 @@ func (h *ibcH) runHistory(sc scenario) {
 	}
 	e.Note("scenario %s amount=%s limit=%s change=%+v forward=%+v", feat, sc.amount, sc.minOrOut, sc.change, sc.forward)
 
+	if sc.forward.present && sc.change.present && sc.strat == "out" && sc.forward.ch != sc.change.ch && sc.memoRaw == "" && h.e.R.N(3) > 0 {
+		// both legs leave on different channels: make them get the SAME packet sequence on their own channel (plain
+		// transfers pad the channel that is behind), so that a leg is identified by channel AND sequence or not at all
+		s0, s1 := h.nextSeq(ch0), h.nextSeq(ch1)
+		if sendCh == ch0 {
+			s0++
+		} else {
+			s1++
+		}
+		for n := 0; s0 != s1 && n < 12; n++ {
+			if s0 < s1 {
+				if _, ok := h.opTransfer(0, ch0, sdk.NewCoin("uaaa", sdkmath.OneInt()), h.addrs["a3"], ""); !ok {
+					break
+				}
+				s0++
+			} else {
+				if _, ok := h.opTransfer(0, ch1, sdk.NewCoin("uaaa", sdkmath.OneInt()), h.addrs["a3"], ""); !ok {
+					break
+				}
+				s1++
+			}
+		}
+		if s0 == s1 {
+			e.Stat("legs_same_sequence_on_different_channels")
+		}
+	}
 	pre := h.snapshot()
 	in, ok := h.opTransfer(0, sendCh, sdk.NewCoin(denomSend, sc.amount), h.addrs[sc.receiver], memo)
 	if !ok {
